@@ -400,9 +400,8 @@ def r7_probabilities_immutable(ctx, rule):
         ctx.ok(rule, 'lib_guesser', "outside the loader, ['prob']/['values'] are only stored into pt_items built in the same function")
 
 
-def r8_loader_stateless(ctx, rule):
+def r8_loader_stateless(ctx, rule, rel='lib_guesser/grammar_io.py', floor=6, why=None):
     """load_grammar is a function of (ruleset, flags): no module-level state survives between calls."""
-    rel = 'lib_guesser/grammar_io.py'
     m = ctx.repo.mod(rel)
     glob = set()
     for st in m.tree.body:
@@ -432,11 +431,11 @@ def r8_loader_stateless(ctx, rule):
                 hit = node
             if hit is not None:
                 bad = True
-                ctx.bad(rule, q, 'module-level cache written: ' + U(hit)[:60],
+                ctx.bad(rule, q, 'module-level cache written: ' + U(hit)[:60], why or
                         'a ruleset loaded once in a process (e.g. for the Prince list, or before --load restored the flags) is '
                         'handed to a later load with different skip_case/skip_brute: the flags no longer restrict the grammar',
                         {'module_level_names': sorted(glob)}, hit)
-    if ctx.floor(rule, rel, n, 6, 'loader functions') and not bad:
+    if ctx.floor(rule, rel, n, floor, 'functions of ' + rel) and not bad:
         ctx.ok(rule, rel, 'no loader function writes module-level state (%d functions)' % n)
 
 
